@@ -531,3 +531,25 @@ def zero_flags_over_three_points(sight_height_neg, look, y1, y2, y3):
         f.check_zero_crossing(Vector(x, y, 0.0))
         out.append(f.current_flag & 3)
     return (out[0], out[1], out[2])
+
+
+# ---------------------------------------------------------------------------------------
+# C17 history harnesses: the ammunition is used (a velocity is asked for) BEFORE it is calibrated or edited;
+# what it answers afterwards must be what a freshly built ammunition with the same data answers
+def velocity_after_use_then_calibration(v0, t0, v1, t1, t_query):
+    """real constructor; ask a velocity; calibrate from a second measurement; ask at the second temperature"""
+    a = Ammo(None, Velocity.MPS(v0), Temperature.Celsius(t0), 0, True)
+    a.get_velocity_for_temp(Temperature.Celsius(t_query))
+    a.calc_powder_sens(Velocity.MPS(v1), Temperature.Celsius(t1))
+    return a.get_velocity_for_temp(Temperature.Celsius(t1))
+
+
+def velocity_after_use_then_edit(v0, t0, m0, v0b, m1, t_query):
+    """real constructor; ask a velocity; the user states another velocity and modifier; ask again - against a fresh
+    ammunition built with the edited data"""
+    a = Ammo(None, Velocity.MPS(v0), Temperature.Celsius(t0), m0, True)
+    a.get_velocity_for_temp(Temperature.Celsius(t_query))
+    a.mv = Velocity.MPS(v0b)
+    a.temp_modifier = m1
+    b = Ammo(None, Velocity.MPS(v0b), Temperature.Celsius(t0), m1, True)
+    return (a.get_velocity_for_temp(Temperature.Celsius(t_query)), b.get_velocity_for_temp(Temperature.Celsius(t_query)))
